@@ -52,7 +52,11 @@ func genRepl(ch *simrt.Chooser, thorough bool) []replAct {
 		case k < 16:
 			plan = append(plan, replAct{Kind: "newleader", N: ch.Choose(simrt.SWork, 4), A: 1 + ch.Choose(simrt.SWork, 3)})
 		case k < 17:
-			plan = append(plan, replAct{Kind: "lsnap", N: ch.Choose(simrt.SWork, 4)})
+			if ch.Choose(simrt.SWork, 2) == 0 {
+				plan = append(plan, replAct{Kind: "config"})
+			} else {
+				plan = append(plan, replAct{Kind: "lsnap", N: ch.Choose(simrt.SWork, 4)})
+			}
 		case k < 19:
 			plan = append(plan, replAct{Kind: "stale", N: 1 + ch.Choose(simrt.SWork, 4), A: 1 + ch.Choose(simrt.SWork, 6)})
 		default:
@@ -76,6 +80,18 @@ type replDriver struct {
 	gaveUp   bool
 	cmdN     int
 	followerTerm uint64
+}
+
+// cfgAt returns the newest configuration entry of L at or below idx (the bootstrap one at least).
+func (d *replDriver) cfgAt(idx uint64) (raft.Configuration, uint64) {
+	for i := idx; i > 1; i-- {
+		if e, ok := d.L[i]; ok && e.Type == raft.LogConfiguration {
+			if c, ok := decodeCfg(e.Data); ok {
+				return c, i
+			}
+		}
+	}
+	return d.conf, 1
 }
 
 func (d *replDriver) termAt(i uint64) uint64 {
@@ -117,6 +133,11 @@ func (d *replDriver) appendEnt(t raft.LogType, data string) {
 		o.entries[k] = &EntryRec{ent: e, seq: d.w.sim.Seq(), node: d.leader}
 		if f, ok := o.termFirst[e.Term]; !ok || e.Index < f {
 			o.termFirst[e.Term] = e.Index
+		}
+		if e.Type == raft.LogConfiguration {
+			if c, ok := decodeCfg(e.Data); ok {
+				o.cfgs = append(o.cfgs, cfgRec{idx: e.Index, term: e.Term, cfg: c, seq: d.w.sim.Seq()})
+			}
 		}
 	}
 }
@@ -200,8 +221,9 @@ func (d *replDriver) installSnapshot() {
 	}
 	st := d.stateAt(idx)
 	body := st.encode(d.w.ch.Choose(simrt.SWork, 3) * 100)
+	scfg, scfgIdx := d.cfgAt(idx)
 	req := &raft.InstallSnapshotRequest{RPCHeader: d.hdr(), SnapshotVersion: 1, Term: d.term, Leader: []byte(fmt.Sprintf("a%d", d.leader)), LastLogIndex: idx, LastLogTerm: d.termAt(idx),
-		Configuration: raft.EncodeConfiguration(d.conf), ConfigurationIndex: 1, Size: int64(len(body))}
+		Configuration: raft.EncodeConfiguration(scfg), ConfigurationIndex: scfgIdx, Size: int64(len(body))}
 	r, _ := d.call("IS", d.leader, d.term, req, body).(*raft.InstallSnapshotResponse)
 	if r == nil {
 		return
@@ -294,6 +316,27 @@ func (d *replDriver) step(a replAct) {
 		}
 		d.last = keep
 		d.newTerm(d.term+uint64(a.A), true)
+	case "config":
+		// a membership change that leaves the voters alone: the non-voter s3 joins or leaves. Like a
+		// real leader, only once the previous configuration is committed.
+		cur, curIdx := d.cfgAt(d.last)
+		if curIdx > d.commit || d.termAt(d.commit) != d.term {
+			return
+		}
+		next := raft.Configuration{}
+		had := false
+		for _, sv := range cur.Servers {
+			if sv.ID == "s3" {
+				had = true
+				continue
+			}
+			next.Servers = append(next.Servers, sv)
+		}
+		if !had {
+			next.Servers = append(next.Servers, raft.Server{Suffrage: raft.Nonvoter, ID: "s3", Address: "a3"})
+		}
+		d.appendEnt(raft.LogConfiguration, string(raft.EncodeConfiguration(next)))
+		d.sync()
 	case "lsnap":
 		s := d.commit
 		if uint64(a.N) < s {
